@@ -1,2 +1,129 @@
-From AG Require Import Str.
-Example placeholder : 1 = 1. Proof. reflexivity. Qed.
+(** C20 — equivalent spellings of a query mean the same thing. *)
+From Coq Require Import List ZArith NArith Bool Lia.
+From AG Require Import Str F64 Value Json Expr Ops Pipeline Filter Grammar Print
+     Roundtrip_proofs FilterRoundtrip_proofs Spelling_proofs Cli Cli_proofs.
+From AG Require Generated.
+Import ListNotations.
+Open Scope string_scope.
+Open Scope list_scope.
+
+(** *** expressions: any two spellings — whitespace runs of any kind and length, `and`/`&&`,
+    `or`/`||`, `!=`/`<>`, either quote style, minimal or redundant parentheses, `["name"]` where a
+    bare name will not do — of the same expression are read identically (and as that expression:
+    C05_precedence_roundtrip) *)
+Theorem C20_expression_spellings_agree : forall (o1 o2 : popts) (e : expr) (rest : str),
+  popts_ok o1 = true -> popts_ok o2 = true -> wf_expr e = true -> stopb rest = true ->
+  opt_expr (pp o1 0 e ++ rest) = opt_expr (pp o2 0 e ++ rest).
+Proof. exact expr_spellings_agree. Qed.
+Print Assumptions C20_expression_spellings_agree.
+
+(** the same in front of any continuation that cannot continue an expression (` desc`, ` nodrop`, ` as x`, ...) *)
+Theorem C20_expression_roundtrip_general : forall (o : popts) (e : expr) (rest : str),
+  popts_ok o = true -> wf_expr e = true -> fol 0 rest ->
+  opt_expr (pp o 0 e ++ rest) = POk e rest.
+Proof. exact expr_roundtrip_fol. Qed.
+Print Assumptions C20_expression_roundtrip_general.
+
+(** *** filters: any two spellings of the same search part are read identically *)
+Theorem C20_filter_spellings_agree : forall (o1 o2 : popts) (fs : list filter) (rest : str),
+  popts_ok o1 = true -> popts_ok o2 = true -> fs <> [] -> forallb wf_filter fs = true -> search_stop rest = true ->
+  parse_search (fpp_top o1 fs ++ rest) = parse_search (fpp_top o2 fs ++ rest).
+Proof. exact filter_spellings_agree. Qed.
+Print Assumptions C20_filter_spellings_agree.
+
+(** *** whitespace and line breaks before a stage / an expression are immaterial (for ANY text) *)
+Theorem C20_stage_leading_whitespace : forall ws s : str,
+  forallb is_space ws = true -> p_oper (ws ++ s) = p_oper s.
+Proof. exact p_oper_leading_ws. Qed.
+Print Assumptions C20_stage_leading_whitespace.
+
+Theorem C20_expression_leading_whitespace : forall ws s : str,
+  forallb is_space ws = true -> opt_expr (ws ++ s) = opt_expr s.
+Proof. exact opt_expr_leading_ws. Qed.
+Print Assumptions C20_expression_leading_whitespace.
+
+(** *** the documented synonyms, over the keyword tables re-read from src/lang.rs in source order:
+    every spelling is consumed whole and means what it names (false before fix f72d69c) *)
+Theorem C20_sort_mode_synonyms : forall r : str,
+  nonident_next r = true ->
+  sort_mode_from Generated.sort_mode_tags (lit "asc" ++ r) = Some (false, r) /\
+  sort_mode_from Generated.sort_mode_tags (lit "ascending" ++ r) = Some (false, r) /\
+  sort_mode_from Generated.sort_mode_tags (lit "desc" ++ r) = Some (true, r) /\
+  sort_mode_from Generated.sort_mode_tags (lit "dsc" ++ r) = Some (true, r) /\
+  sort_mode_from Generated.sort_mode_tags (lit "descending" ++ r) = Some (true, r).
+Proof. exact sort_mode_synonyms. Qed.
+Print Assumptions C20_sort_mode_synonyms.
+
+Theorem C20_fields_mode_synonyms : forall r : str,
+  fields_mode (lit "+" ++ r) = POk true r /\ fields_mode (lit "only" ++ r) = POk true r /\
+  fields_mode (lit "include" ++ r) = POk true r /\
+  fields_mode (lit "-" ++ r) = POk false r /\ fields_mode (lit "except" ++ r) = POk false r /\
+  fields_mode (lit "drop" ++ r) = POk false r.
+Proof. exact fields_mode_synonyms. Qed.
+Print Assumptions C20_fields_mode_synonyms.
+
+Theorem C20_neq_synonyms : forall r : str,
+  comp_op (lit "!=" ++ r) = POk CNeq r /\ comp_op (lit "<>" ++ r) = POk CNeq r.
+Proof. exact neq_synonyms. Qed.
+Print Assumptions C20_neq_synonyms.
+
+Theorem C20_avg_synonyms : forall r : str, p_aggfn (lit "avg" ++ r) = p_aggfn (lit "average" ++ r).
+Proof. exact avg_synonyms. Qed.
+Print Assumptions C20_avg_synonyms.
+
+Theorem C20_pct_synonyms : forall r : str,
+  (match r with c :: _ => is_digit c | [] => false end) = true ->
+  p_aggfn (lit "p" ++ r) = p_aggfn (lit "pct" ++ r) /\
+  p_aggfn (lit "p" ++ r) = p_aggfn (lit "percentile" ++ r).
+Proof. exact pct_synonyms. Qed.
+Print Assumptions C20_pct_synonyms.
+
+(** *** defaults *)
+Theorem C20_bare_limit_is_limit_10 :
+  check_lop true (LInline (LLimit None)) = check_lop true (LInline (LLimit (Some (f_of_Z 10)))).
+Proof. exact bare_limit_is_limit_10. Qed.
+Print Assumptions C20_bare_limit_is_limit_10.
+
+Theorem C20_limit_bare_form : forall r : str,
+  end_of_query r = POk tt r -> p_limit (lit "limit" ++ r) = POk (LLimit None) r.
+Proof. exact p_limit_bare. Qed.
+Print Assumptions C20_limit_bare_form.
+
+(** an aggregate without `as` gets its default name (table re-read from the source), so writing the
+    default explicitly changes nothing *)
+Theorem C20_default_column_name : forall (s r : str) (a : lagg) (ps r2 : str),
+  p_aggfn (skip_spaces s) = POk (a, ps) r ->
+  popt (word_then "as" req_ident) r = POk None r2 ->
+  p_agg_oper s = POk (default_name_of a ps, a) (skip_spaces r2).
+Proof. exact agg_default_name. Qed.
+Print Assumptions C20_default_column_name.
+
+Theorem C20_explicit_column_name : forall (s r : str) (a : lagg) (ps n r2 : str),
+  p_aggfn (skip_spaces s) = POk (a, ps) r ->
+  popt (word_then "as" req_ident) r = POk (Some n) r2 ->
+  p_agg_oper s = POk (n, a) (skip_spaces r2).
+Proof. exact agg_explicit_name. Qed.
+Print Assumptions C20_explicit_column_name.
+
+(** *** aliases: every alias of aliases/*.toml (re-read on every run) compiles to exactly the stages of
+    its expansion written out in the query *)
+Theorem C20_alias_is_expansion : forall k t : String.string,
+  In (k, t) Generated.alias_table ->
+  option_map snd (accepts (lit "* | " ++ lit k)) = option_map snd (accepts (lit "* | " ++ lit t))
+  /\ option_map snd (accepts (lit "* | " ++ lit k)) <> None.
+Proof. exact alias_is_expansion. Qed.
+Print Assumptions C20_alias_is_expansion.
+
+(** *** command line: `--format F` is `-o format=F` for every F *)
+Theorem C20_format_flag : forall f : str,
+  select_mode None (Some f) = select_mode (Some (lit "format=" ++ f)) None.
+Proof. exact format_flag_is_output_format. Qed.
+Print Assumptions C20_format_flag.
+
+Example C20_spelling_examples :
+  let same a b := match accepts (lit a), accepts (lit b) with
+                  | Some x, Some y => True | _, _ => False end in
+  same "* | json | count by k | limit" "* | json | count by k | limit 10" /\
+  same "* | json | sort by a" "* | json | sort by a ascending" /\
+  same "( a OR b ) | json | where ( x == 1 ) | sum( x )" "(a OR b)|json|where (x==1)|sum(x)".
+Proof. vm_compute. repeat split. Qed.
